@@ -265,6 +265,11 @@ func e2eKernels() []gen.Kernel {
 		if strings.Contains(k.Text, "//line") {
 			continue
 		}
+		if k.Checker == "odd-bodiless" {
+			// a body-less function without an assembly file type-checks but does not compile:
+			// go list reports the package as broken and the analysis driver skips it
+			continue
+		}
 		out = append(out, k)
 	}
 	return out
